@@ -59,6 +59,49 @@ def mk_locks(pk, S, flags):
     return {'native': T.make_taproot_lock(pk, S, sigflags=fl).bytes, 'nonnative': T.make_nonnative_taproot_lock(pk, S, sigflags=fl).bytes}
 
 
+def _touches_handle0(code, depth=0):
+    """CALL 0 or DEF 0 anywhere in the program (blocks, and pushed byte strings that decode as programs)"""
+    try:
+        prog = R.decode(code)
+    except R.DecodeError:
+        return bytes([C['OP_CALL'], 0]) in code or bytes([C['OP_DEF'], 0]) in code
+
+    def walk(nodes):
+        for n in nodes:
+            if n[0] == 'i':
+                if n[1] == C['OP_CALL'] and n[2] == 0:
+                    return True
+                if depth < 3:
+                    for x in n[2:]:
+                        if isinstance(x, bytes) and len(x) >= 2 and _touches_handle0(x, depth + 1):
+                            return True
+            elif n[0] == 'def':
+                if n[1] == 0 or walk(n[2]):
+                    return True
+            else:
+                for x in n[1:]:
+                    if isinstance(x, list) and walk(x):
+                        return True
+        return False
+    return walk(prog)
+
+
+# D26 (open): the non-native lock keeps its root in function 0, which the committed script and the witness can see / shadow
+_COLLISION = 'taproot/nonnative/function-handle-0-of-the-lock-visible-to-the-scripts'
+
+
+def _reclassify_handle0(fails, codes):
+    if not fails or not any(_touches_handle0(c) for c in codes):
+        return fails
+    out = []
+    for sgn, det in fails:
+        if sgn.startswith(('taproot/nonnative/script-path-verdict-differs-from-script', 'taproot/native-and-nonnative-verdicts-differ',
+                           'taproot/native-and-nonnative-run-different-scripts')):
+            sgn = _COLLISION
+        out.append((sgn, det))
+    return out
+
+
 def check_taproot(case):
     fails = []
     seed, body, fields, flag, allowed = case['seed'], case['body'], case['fields'], case['flag'] & 0xff, case['allowed'] & 0xff
@@ -184,7 +227,7 @@ def check_taproot(case):
                 fails.append(('taproot/%s/uncommitted-pair-authorises/%s' % (lk, kind), ''))
     if len(set(verdicts.values())) > 1:
         fails.append(('taproot/native-and-nonnative-verdicts-differ/%s' % kind, '%r' % (verdicts,)))
-    return fails, info
+    return _reclassify_handle0(fails, [Sb]), info
 
 
 def check_graftap(case):
@@ -241,7 +284,7 @@ def check_equiv(case):
         fails.append(('taproot/native-and-nonnative-verdicts-differ/adversarial-%s' % case['tail'], 'native %r nonnative %r witness %s' % (a, b, w.hex()[:120])))
     elif (tag in sa) != (tag in sb):
         fails.append(('taproot/native-and-nonnative-run-different-scripts', '%r vs %r' % (sa, sb)))
-    return fails, {'verdict': a}
+    return _reclassify_handle0(fails, [Sb, w]), {'verdict': a}
 
 
 def check_case(case):
